@@ -29,8 +29,43 @@ def tri : P String := do
       wRes wTri (Tri.new (K := K) i), wTri (Tri.transpose t), wRes wTri (Tri.withVecs sub main sup)]
     pure (" ".intercalate parts)
 
+/-- history of edits of one tridiagonal matrix; after every step the object and its product with the ones vector -/
+def triHist : P String := do
+  let sub : Array K ← pArr
+  let main : Array K ← pArr
+  let sup : Array K ← pArr
+  let nops ← pNat
+  match Tri.withVecs sub main sup with
+  | .error e => pure ("!" ++ toString e)
+  | .ok t0 =>
+    let mut t := t0
+    let mut out := wTri t
+    for _ in [0:nops] do
+      let op ← tok
+      let r : Res (Tri K) ← (match op with
+        | "resize" => do let n ← pNat; pure (Tri.new (K := K) n)
+        | "set" => do let i ← pNat; let j ← pNat; let x : K ← Wire.rd; pure (Tri.set t i j x)
+        | "trip" => pure (.ok (Tri.transpose t))
+        | "muls" => do let x : K ← Wire.rd; pure (.ok (Tri.smul t x))
+        | "divs" => do let x : K ← Wire.rd; pure (Tri.sdiv t x)
+        | "adds" => do let x : K ← Wire.rd; pure (.ok (Tri.addS t x))
+        | "subs" => do let x : K ← Wire.rd; pure (.ok (Tri.subS t x))
+        | _ => throw s!"unknown tridiagonal op {op}" : P (Res (Tri K)))
+      let o : String := match r with
+        | .ok _ => "ok"
+        | .error e => "!" ++ toString e
+      t := match r with
+        | .ok t' => t'
+        | .error _ => t
+      out := out ++ s!" ; {op} {o} | {wTri t}"
+      let skipView : Bool := match r with | .error _ => op == "divs" | .ok _ => false
+      if !skipView && t.n ≥ 1 then
+        out := out ++ " | " ++ wRes wArr (Tri.mulVec t (Array.replicate t.n (1 : K)))
+    pure out
+
 def exec (op : String) : P (Option String) := do
   match op with
+  | "tri_hist" => let tag ← tok; some <$> byTag tag (fun K _ => triHist (K := K))
   | "tri" => let tag ← tok; some <$> byTag tag (fun K _ => tri (K := K))
   | _ => pure none
 end DrvTri
